@@ -474,9 +474,10 @@ Definition after_epoch_end (cfg : config) (thr : Z -> tval) (s : state) : res st
 Definition with_locks (s : state) (tbl : list lock) (last : Z) : state :=
   mkState (s_now s) (s_gauges s) (s_last_gauge s) (s_up s) (s_act s) (s_fin s) tbl last (s_bank s) (s_routable s).
 
-(* CreateLock; the owner is assumed to hold the coins; a non-positive amount is not a valid coin *)
+(* CreateLock; the owner (a user, i.e. a non-negative address) is assumed to hold the coins; a non-positive amount
+   is not a valid coin *)
 Definition create_lock (s : state) (owner denom amt dur : Z) : res (state * Z) :=
-  if amt <=? 0 then Err E_LOCK else
+  if (amt <=? 0) || (owner <? 0) then Err E_LOCK else
   let id := s_last_lock s + 1 in
   Ok (with_locks s (s_locks s ++ [mkLock id owner denom amt dur false 0 None]) id, id).
 
@@ -524,6 +525,7 @@ Definition set_receiver (s : state) (id to : Z) : res state :=
   match find_lock (s_locks s) id with
   | None => Err E_LOCK
   | Some l =>
+      if to <? 0 then Err E_LOCK else               (* not an account address *)
       let nw := if to =? l_owner l then None else Some to in
       let same := match l_recv l, nw with
                   | None, None => true
